@@ -17,7 +17,7 @@ TIGHT = float(os.environ.get("VP_C07_TIGHT", "1"))
 PROPERTY = "C07"
 RULE = (
     "one mode with fn in [0.04,0.25] fs, xi in [2 %,5 %], half-power bandwidth >= 4 lines, >= 30 periods in the half record, 2..6 channels, "
-    "real shapes, segment lengths 1024..8192, drawn fs, DF2 in [4,8] bandwidths inside the grid, default sppk/npmax/MAClim, methodSy 'per'; "
+    "real shapes, segment lengths 1024..8192, drawn fs, DF2 in [4,8] bandwidths inside the grid or (a quarter of the cases) reaching past the lower / upper end of the frequency axis, default sppk/npmax/MAClim, methodSy 'per'; "
     "Sy = S(f) phi phi^T + 1e-9 max(S) I with the analytic displacement PSD of a white-noise driven SDOF; every case is non-trivial (distinct parameters)"
 )
 ASSUMPTIONS = [
